@@ -643,6 +643,24 @@ func genCodec(o *Out, r *Rng, n int, tier string) {
 			emitDec(o, r, "C13", ty, "v", append(append([]byte{}, v...), w...), prev)
 			emitDec(o, r, "C13", ty, "a", append(append([]byte{}, a...), v...), nil)
 		default: // malformed
+			if r.Chance(8) {
+				// an EventTime whose payload has the wrong length (0..16 bytes, not 8), in whatever ext format fits
+				k := r.Intn(17)
+				if k == 8 {
+					k = 7
+				}
+				bad := nExt(0, r.Bytes(k))
+				bad.W = r.Intn(3)
+				switch r.Intn(3) {
+				case 0:
+					emitDec(o, r, "C10", "MessageExt", "m", nArr(nStr([]byte("t")), bad, nMap()).Enc(), prev)
+				case 1:
+					emitDec(o, r, "C10", "EntryExt", "m", nArr(bad, nMap()).Enc(), nil)
+				default:
+					emitDec(o, r, "C10", "Forward", "m", nArr(nStr([]byte("t")), nArr(nArr(bad, nMap()))).Enc(), nil)
+				}
+				continue
+			}
 			src := v
 			if r.Bool() {
 				src = a
